@@ -74,13 +74,14 @@ class EpochAlg:
             same = True
         self.conv_calls.append((st, ep, ts))
         if same:
+            st.trace.append(("conv-call", ep, ts, ep.fs[0], True))
             return [(st, ep)]
         term = ("conv", e.term(dur), e.term(src), e.term(ts))
         d2 = e.fresh(self.D.dur_tid, term)
         # fresh durations are canonical values
         c2, n2 = self.D.parts(d2)
         e.add_cons(st, [(n2 - (self.D.NPC - 1), "<=")])
-        st.trace.append(("conv", e.term(src), e.term(ts)))
+        st.trace.append(("conv-call", ep, ts, d2, False))
         self.last_conv = getattr(self, "last_conv", {})
         key = (id(st),)
         return [(st, Struct(ep.tid, [d2, ts]))]
